@@ -35,6 +35,7 @@ class Cfg:
     p_join_pred: int = 33  # percentage of joins that carry a predicate
     p_restricted: int = 0  # percentage of calculation / sort expressions using an engine-restricted function
     p_wrap: int = 10  # percentage of predicates combined with a constant-foldable operand (OR[p, FALSE], AND[TRUE, p], ...)
+    p_cfun: int = 0  # percentage of calculations / sorts / selections of the main program using the engine-specific function
     p_member: int = 0  # percentage of predicates that are a membership test most rows pass (wide ascending / descending range)
     expr_depth: int = 2
     prelude: float = 0.0  # probability of starting from a drawn SELECT state (subset of sort/proj/dedup/slice)
@@ -363,6 +364,18 @@ def st_program(draw, cfg, universe=None, leaves=None):
             hidden = [t for i in sorted(leaf_indices(main)) for t in leaves[i][1] if t not in cols]
             node = draw(st_unary_node(main, cols, universe, cfg.unary, cfg, hidden=hidden))
             node = _steer_unary(node, main, avoid, cols)
+            if cfg.p_cfun and node is not None and node[0] in ("calc", "sort", "sel") and cols and draw(st.integers(0, 99)) < cfg.p_cfun:
+                # the user-defined function means something else in every engine: whatever evaluates this operation
+                # must be the engine the program put it in
+                if node[0] == "calc":
+                    node = ("calc", node[1], node[2], ("cfun", eng, node[3]))
+                elif node[0] == "sort" and node[2]:
+                    (e0, asc0), rest = node[2][0], node[2][1:]
+                    node = ("sort", node[1], ((("cfun", eng, e0), asc0),) + tuple(rest))
+                elif node[0] == "sel":
+                    t = draw(st.sampled_from(sorted_tags(cols)))
+                    extra = ("ge", ("cfun", eng, ("ref", t)), ("lit", draw(st.integers(2, 6))))
+                    node = ("sel", node[1], ("and", (node[2], extra)) if draw(st.booleans()) else ("or", (extra, node[2])))
         elif choice == "mat":
             if not (steer and _unsliced_sort(main)):
                 node = ("mat", main, f"m{counter[0]}")
